@@ -1,6 +1,6 @@
 (* C14  Type-source preference settles only real conflicts; warnings never alter output. *)
 From Coq Require Import List String Ascii ZArith Bool Permutation Sorting.Sorted. Import ListNotations.
-From SV Require Import Lib.Str Model.Types Model.Api Model.FrontSmall Proofs.FrontSmallProofs.
+From SV Require Import Lib.Str Model.Types Model.Api Model.FrontSmall Model.View Model.Front Proofs.FrontSmallProofs Proofs.WalkProofs.
 
 (* hint under CODE, docstring type under DOCSTRING, the only available one otherwise *)
 Theorem C14_param_choice : forall pref_doc warn p,
@@ -36,6 +36,11 @@ Theorem C14_result_warn_always_refuted :
     (exists r d t, rs = [r] /\ docs = [d] /\ r_type r = Some t /\ rd_type d = Some t).
 Proof. exact result_warn_always_refuted. Qed.
 
+(* WHOLE ANALYZER: for every view (every package, every docstring answer), the API object and the key order of its
+   dictionaries - hence the JSON file and every stub - are the same with warnings on and off; so is the error, if the run
+   aborts.  Only the log differs. *)
+Theorem C14_front_warn_pure : forall v w1 w2, output_of (front (with_warn v w1)) = output_of (front (with_warn v w2)).
+Proof. exact front_warn_pure. Qed.
 Print Assumptions C14_param_choice.
 Print Assumptions C14_param_warn_pure.
 Print Assumptions C14_param_warn_iff.
@@ -44,3 +49,4 @@ Print Assumptions C14_result_no_warning_when_ignored.
 Print Assumptions C14_result_only_hint.
 Print Assumptions C14_result_code_preference_keeps_hints.
 Print Assumptions C14_result_warn_always_refuted.
+Print Assumptions C14_front_warn_pure.
